@@ -496,10 +496,17 @@ fn t_h01sym__ttxt_k1_len1_any_timescales() {
     unsafe { TIMESCALES = None };
     h01_hist::<1>(Kind::Ttxt, [1])
 }
-/// a second concrete pair: track timescale finer than the movie's
+/// a second concrete pair in the quick tier: track timescale finer than the movie's
+#[kani::proof]
+#[kani::unwind(4)]
+fn q_h01ts__ttxt_k1_len1_ts90000_movie600() {
+    unsafe { TIMESCALES = Some((90000, 600)) };
+    h01_hist::<1>(Kind::Ttxt, [1])
+}
+/// ... and for two samples (thorough)
 #[kani::proof]
 #[kani::unwind(5)]
-fn q_h01ts__ttxt_k2_len11_ts90000_movie600() {
+fn t_h01ts__ttxt_k2_len11_ts90000_movie600() {
     unsafe { TIMESCALES = Some((90000, 600)) };
     h01_hist::<2>(Kind::Ttxt, [1, 1])
 }
@@ -514,9 +521,9 @@ hist!(q_h01hist__vp9_k1_len1, 4, 1, Kind::Vp9, [1]);
 hist!(q_h01hist__aac_k1_len1, 4, 1, Kind::Aac, [1]);
 hist!(q_h01hist__ttxt_k0, 3, 0, Kind::Ttxt, []);
 // two samples: every payload-length vector in {0,1,2}^2 (quick: five of them)
-hist!(q_h01hist__ttxt_k2_len11, 5, 2, Kind::Ttxt, [1, 1]);
+hist!(t_h01hist__ttxt_k2_len11, 5, 2, Kind::Ttxt, [1, 1]);
 hist!(t_h01hist__ttxt_k2_len12, 5, 2, Kind::Ttxt, [1, 2]);
-hist!(q_h01hist__ttxt_k2_len01, 5, 2, Kind::Ttxt, [0, 1]);
+hist!(t_h01hist__ttxt_k2_len01, 5, 2, Kind::Ttxt, [0, 1]);
 hist!(t_h01hist__ttxt_k2_len10, 5, 2, Kind::Ttxt, [1, 0]);
 hist!(t_h01hist__ttxt_k2_len00, 5, 2, Kind::Ttxt, [0, 0]);
 hist!(t_h01hist__ttxt_k2_len02, 5, 2, Kind::Ttxt, [0, 2]);
